@@ -446,6 +446,10 @@ pub enum WOp {
     RemoveStream { name: u8 },
     SetState { name: u8, bits: u32 },
     CfbFlush,
+    /// walk() over the whole tree (must terminate)
+    Walk,
+    /// remove_storage_all on one of the storages
+    RemoveAll { name: u8 },
 }
 
 struct WHandle {
@@ -578,6 +582,21 @@ pub fn run_write_script(version: u8, max_buf: Option<u32>, script: &[WOp], ctl: 
                     Some(guard("set_state_bits", || c.set_state_bits(WNAMES[n], *bits))?)
                 }
                 WOp::CfbFlush => Some(guard("flush", || c.flush())?),
+                WOp::Walk => {
+                    let n = guard("walk", || c.walk().take(20_000).count())?;
+                    if n >= 20_000 {
+                        return Err(Fail::new("write_fault|walk|does_not_terminate", "walk() yields more than 20000 entries on a file with at most 9: the sibling tree has a cycle".to_string()));
+                    }
+                    None
+                }
+                WOp::RemoveAll { name } => {
+                    let n = *name as usize % WNAMES.len();
+                    if !W_IS_STORAGE[n] || (0..WNAMES.len()).any(|k| WNAMES[k].starts_with(WNAMES[n]) && open_on(&handles, k)) {
+                        None
+                    } else {
+                        Some(guard("remove_storage_all", || c.remove_storage_all(WNAMES[n]))?)
+                    }
+                }
                 WOp::Close { slot } => {
                     let s = *slot as usize % handles.len();
                     if let Some(h) = handles[s].take() {
@@ -830,5 +849,7 @@ fn wop_kind(op: &WOp) -> &'static str {
         WOp::RemoveStream { .. } => "remove_stream",
         WOp::SetState { .. } => "set_state_bits",
         WOp::CfbFlush => "flush",
+        WOp::Walk => "walk",
+        WOp::RemoveAll { .. } => "remove_storage_all",
     }
 }
